@@ -196,3 +196,50 @@ Proof.
 Qed.
 Lemma r_g_vop3a_457 : row_ok GCN3 F_VOP3A 457. Proof. row_val. apply bfe_s_row. Qed.
 Lemma r_c_vop3a_457 : row_ok CDNA3 F_VOP3A 457. Proof. row_val. apply bfe_s_row. Qed.
+
+(* round 4: v_ffbh_u32 (GCN3), v_alignbit_b32, VOP3 v_or_b32, 16-bit opcodes *)
+Lemma r_g_vop1_45 : row_ok GCN3 F_VOP1 45. Proof. row_val. apply ffbh_row. Qed.
+
+Lemma lor_shl32 : forall x y, 0 <= x -> 0 <= y < W32 -> Z.lor (Z.shiftl x 32) y = x * W32 + y.
+Proof.
+  intros x y Hx Hy. rewrite Z.shiftl_mul_pow2 by lia. change (2 ^ 32) with W32.
+  assert (Hl : Z.land (x * W32) y = 0).
+  { apply Z.bits_inj'. intros n Hn. rewrite Z.land_spec, Z.bits_0.
+    destruct (Z.lt_ge_cases n 32).
+    - change W32 with (2 ^ 32). rewrite Z.mul_pow2_bits_low by lia. reflexivity.
+    - destruct (Z.eq_dec y 0) as [->|Hz]; [rewrite Z.bits_0; apply andb_false_r|].
+      rewrite (Z.bits_above_log2 y n); [apply andb_false_r|lia|].
+      assert (Z.log2 y < 32) by (apply Z.log2_lt_pow2; unfold W32 in *; lia). lia. }
+  rewrite <- Z.lxor_lor by exact Hl. symmetry. apply Z.add_nocarry_lxor. exact Hl.
+Qed.
+Lemma alignbit_row : forall a b c,
+  u32 (u32 (Z.shiftr (Z.lor (Z.shiftl (u32 a) 32) (u32 b)) (Z.land c 31))) =
+  ((u32 a * W32 + u32 b) / 2 ^ (u32 c mod 32)) mod W32.
+Proof.
+  intros. rewrite u32_u32, land31, lor_shl32 by (try apply u32_range; pose proof (u32_range a); lia).
+  rewrite Z.shiftr_div_pow2 by apply m32. rewrite (amt32' c). reflexivity.
+Qed.
+Lemma r_g_vop3a_462 : row_ok GCN3 F_VOP3A 462. Proof. row_val. apply alignbit_row. Qed.
+Lemma r_c_vop3a_462 : row_ok CDNA3 F_VOP3A 462. Proof. row_val. apply alignbit_row. Qed.
+Lemma r_c_vop3a_276 : row_ok CDNA3 F_VOP3A 276. Proof. row_val. reflexivity. Qed.
+
+Lemma add16_row : forall a b, u32 (u16 (u16 a + u16 b)) = ((u32 a mod 65536 + u32 b mod 65536) mod 65536) mod W32.
+Proof. intros. unfold u32, u16, W16, W32. lia. Qed.
+Lemma shl16_row : forall a b,
+  u32 (u16 (Z.shiftl (u16 b) (Z.land (u16 a) 15))) = (((u32 b mod 65536) * 2 ^ (u32 a mod 16)) mod 65536) mod W32.
+Proof.
+  intros. change 15 with (Z.ones 4). rewrite Z.land_ones by lia.
+  assert (E : u16 a mod 2 ^ 4 = u32 a mod 16) by (unfold u16, u32, W16, W32; change (2 ^ 4) with 16; lia).
+  rewrite E. rewrite Z.shiftl_mul_pow2 by lia.
+  assert (E2 : u16 b = u32 b mod 65536) by (unfold u16, u32, W16, W32; lia). rewrite E2.
+  unfold u16, u32 at 1, W16, W32. rewrite (Z.mod_small (_ mod 65536)) by lia. reflexivity.
+Qed.
+Lemma r_c_vop2_38 : row_ok CDNA3 F_VOP2 38. Proof. row_val. apply add16_row. Qed.
+Lemma r_c_vop2_42 : row_ok CDNA3 F_VOP2 42. Proof. row_val. apply shl16_row. Qed.
+Lemma r_c_vopc_164 : row_ok CDNA3 F_VOPC 164.
+Proof.
+  intros d r Hd Hr. cbn [vdesc_of Z.eqb Pos.eqb] in Hd. unfold vrow_of, cmp_row in Hr. cbv beta iota in Hd, Hr.
+  apply some_inj in Hd; apply some_inj in Hr; subst d r.
+  vrel_start. split; [exact I|]. cbv [sext16]. unfold s16, sx, u32, W16, W32. cbn [Z.div].
+  repeat case_if; lia.
+Qed.
